@@ -453,6 +453,12 @@ class ExprMixin(object):
             if isinstance(a.ty, Opt):
                 return z3.And(z3.Not(core.ois_none(a)), z3.Not(truthy(core.oval(a))))
             return z3.BoolVal(False)
+        # vacuity guard: == between an opaque sort and a string is False by typing unless the sidecar declared the sort string-like; say so,
+        # so that a dead comparison shows up in the evidence notes instead of silently killing a branch
+        ua, ub = (a.ty.elem if isinstance(a.ty, Opt) else a.ty), (b.ty.elem if isinstance(b.ty, Opt) else b.ty)
+        for x, y in ((ua, ub), (ub, ua)):
+            if isinstance(x, U) and y is STR and x.name not in core.STR_LIKE_SORTS and not self.in_spec:
+                self.notes.append("VACUITY-RISK: `==` between the opaque sort %s and a string is False by typing (declare the sort string-like if it stands for strings)" % x.name)
         return core.equals(a, b)
 
     def _static_to_val(self, a, other):
